@@ -79,7 +79,7 @@ ENTRIES = [
 # encoder-side families with symptoms '<codec>:<family>' on generic ('enc', T, v, codec, defMode, chunk) cases
 ENC_PROPS = {
  'C04': ('CER', 'DER'), 'C05': ('BER', 'CER', 'DER'), 'C06': ('BER', 'CER', 'DER'), 'C07': ('BER', 'CER', 'DER'),
- 'C10': ('BER', 'CER', 'DER'), 'C11': ('BER', 'CER', 'DER'), 'C12': ('BER', 'CER', 'DER'), 'C13': ('BER',),
+ 'C11': ('BER', 'CER', 'DER'), 'C12': ('BER', 'CER', 'DER'), 'C13': ('BER',),
  'C17': ('BER', 'CER', 'DER'), 'C18': ('BER', 'CER', 'DER'),
 }
 ENC_WITNESS = {
@@ -113,6 +113,11 @@ ENTRIES.append(('C16', 'real-nr3-nodot', ['der:real-nr3-nodot'], "('c16', ('real
 ENTRIES.append(('C16', 'time-fraction-zeros', ['der:time-fraction-zeros'], "('c16', ('tag', 'E', 'P', 9, ('useful', 'GeneralizedTime')), '20000915230957.05Z', 'DER', 'e914181232303030303931353233303935372e30355a')"))
 
 EXTRA = [
+ {'id': 'KF-C10-noncanonical-time-accepted', 'status': 'open', 'property': 'C10',
+  'symptom': ['accepted-value-not-encodable:library'], 'zone': ['accepted-noncanonical-time'],
+  'what': "the CER and DER decoders do not validate GeneralizedTime/UTCTime contents (no Z, local offsets, wrong length, comma or trailing zeros in the fraction are all accepted), while the CER/DER encoders refuse exactly those strings: a decoder-accepted value that the same codec's encoder rejects",
+  'why_open': "the source marks it as a TODO ('prohibit non-canonical encoding'); adding time validation to the CER/DER decoders is new behaviour, not a small repair",
+  'witness': "('c10', ('useful', 'UTCTime'), (), '170b383530363237373039315a', 'DER')"},
  {'id': 'KF-C06-closed-mid-read', 'status': 'open', 'property': 'C06',
   'symptom': ['closed:keeps-reporting-underrun'], 'zone': ['stream-ended-inside-a-multi-octet-read'],
   'what': "streaming decoder on a stream that was closed inside a multi-octet read (tag+length known, fewer contents octets than announced, or half of an end-of-octets pair): every retry gets the same short read, rewinds and reports underrun again, so EndOfStreamError is never raised; only a cut on a read boundary (the next read returns b'') is recognised as end of stream",
